@@ -399,6 +399,8 @@ def keylog_text(lines, k):
     """apply the decorations of key-delivery spec k to canonical lines -> text"""
     rnd = random.Random(k.get("seed", 0))
     ls = list(lines)
+    if k.get("explicit") is not None and ls:     # exact order and multiplicity: indexes into the lines (every line at least once)
+        ls = [ls[i % len(ls)] for i in k["explicit"]]
     for _ in range(k.get("dup", 0)):
         if ls:
             ls.insert(rnd.randrange(len(ls) + 1), rnd.choice(ls))
@@ -437,6 +439,9 @@ def write_capture(b, workdir, pkts=None, container=None, keys=None, name="in"):
     k.update(keys if keys is not None else b.spec.get("keys") or {})
     pkts = b.pkts if pkts is None else pkts
     items = [("pkt", p.ts, p.render()) for p in pkts]
+    if c.get("spb") and c["fmt"] == "pcapng":       # [m, r]: every packet with index % m == r is stored as a Simple Packet Block
+        m, r = c["spb"]
+        items = [("spb", it[2]) if i % m == r % m else it for i, it in enumerate(items)]
     klpath = None
     if k["file"]:
         klpath = os.path.join(workdir, name + ".keys")
@@ -462,20 +467,24 @@ def write_capture(b, workdir, pkts=None, container=None, keys=None, name="in"):
                 for d in dsbs:
                     items.insert(rnd.randrange(len(items) + 1), d)
         # unrelated blocks
-        for pos, btype, blen in c["extra"]:
+        def other_block(btype, blen):
             body = bytes((7 * i + btype) & 0xFF for i in range(blen))
             if btype == 4:     # NRB: IPv4 name records up to about blen bytes, then the end-of-records record
                 e = c["endian"]
                 recs = b""
-                k = 0
+                kk = 0
                 while len(recs) + 24 <= blen:
-                    val = bytes([10, 0, (k >> 8) & 0xFF, k & 0xFF]) + b"host%05d.example" % (k % 100000) + b"\x00"
+                    val = bytes([10, 0, (kk >> 8) & 0xFF, kk & 0xFF]) + b"host%05d.example" % (kk % 100000) + b"\x00"
                     recs += struct.pack(e + "HH", 1, len(val)) + val + b"\x00" * (-len(val) % 4)
-                    k += 1
+                    kk += 1
                 body = recs + struct.pack(e + "HH", 0, 0)
             elif btype == 5:   # ISB: interface id + timestamp
                 body = struct.pack(c["endian"] + "III", 0, 0, 0)
-            items.insert(pos % (len(items) + 1), ("raw", btype, body))
+            return ("raw", btype, body)
+        for pos, btype, blen in c["extra"]:
+            items.insert(pos % (len(items) + 1), other_block(btype, blen))
+        # blocks that do not refer to an interface (name resolution, custom, unknown) may also precede the interface description block
+        pre_idb = [other_block(bt, bl) for bt, bl in c.get("extra_pre") or []] + pre_idb
         path = os.path.join(workdir, name + ".pcapng")
         netio.write_pcapng(path, items, endian=c["endian"], tsresol=c["tsresol"], tsoffset=c["tsoffset"], offset_first=bool(c.get("offset_first")),
                            snaplen=c.get("snaplen", 0), pre_idb=pre_idb)
